@@ -24,7 +24,13 @@ def stimuli(block, seed, nsteps):
     import pyrtl
     rnd = random.Random(seed)
     ins = sorted(block.wirevector_subset(pyrtl.Input), key=lambda w: w.name)
-    return [{w.name: _rand_val(rnd, w.bitwidth) for w in ins} for _ in range(nsteps)]
+    out = []
+    for _ in range(nsteps):
+        if out and rnd.random() < 0.35:
+            out.append(dict(out[-1]))          # hold every input for another cycle
+        else:
+            out.append({w.name: _rand_val(rnd, w.bitwidth) for w in ins})
+    return out
 
 
 def init_state(block, seed, use_init):
